@@ -25,7 +25,8 @@ def searchRoll : IO Unit := do
     for size in grid64 do
       for len in gridLen do
         for max in [512, 1024, 4096, 65536, 2^31, 2^32 - 1] do
-          let c := Funcs.rolloverGuard full (BitVec.ofNat 64 size) (BitVec.ofNat 64 len) (BitVec.ofNat 32 max)
+          let c := Funcs.rolloverGuard (f_curSeg_meta_Full := full) (f_curSeg_size := BitVec.ofNat 64 size)
+            (f_opts_maxSegmentSize := BitVec.ofNat 32 max) (len_p0 := BitVec.ofNat 64 len)
           let m := full || decide (size + len > max)
           if c ≠ m then
             report "writeRecord:rollover" s!"full={full} segmentSize={size} recordLen={len} maxSegmentSize={max}" (toString c) (toString m)
